@@ -996,3 +996,28 @@ func (fc *FnCtx) permTerm(a, b Term) string {
 	}
 	return fmt.Sprintf("(%s %s %s)", p, a.S, b.S)
 }
+
+// context.Context.Err, beyond being free of side effects: "After Err returns a non-nil error,
+// successive calls to Err return the same error" (documented contract of the interface, trusted).
+// Each call is related to the (at most eight) calls before it in the same verification condition.
+type ctxErrCall struct{ ctx, res, reach string }
+
+func init() {
+	libModels["context.(Context).Err"] = func(fr *frame, in ssa.Instruction, c *ssa.CallCommon, args []Val, st *State, reach string) Val {
+		fc := fr.fc
+		r := fc.fresh("r_context__Context__Err", SAny)
+		ctx, ok := args[0].(Term)
+		if !ok {
+			return r
+		}
+		prev := fc.ctxErrCalls
+		if len(prev) > 8 {
+			prev = prev[len(prev)-8:]
+		}
+		for _, p := range prev {
+			fc.fact(fmt.Sprintf("(=> (and %s %s (= %s %s) (not (= %s anil))) (= %s %s))", p.reach, reach, p.ctx, ctx.S, p.res, r.S, p.res))
+		}
+		fc.ctxErrCalls = append(fc.ctxErrCalls, ctxErrCall{ctx.S, r.S, reach})
+		return r
+	}
+}
